@@ -4,6 +4,7 @@ import (
 	"fmt"
 	"hash/fnv"
 	"math/rand"
+	"os"
 	"runtime"
 	"sort"
 	"strings"
@@ -302,7 +303,17 @@ func (e *Engine) waitLock(site string, try func() bool) {
 	<-p.ch
 }
 
+// useNoYield re-enables the NoYield sections of DropPrefix/DropAll. They were
+// needed while some db.lock acquisitions had no WaitLock in front of them; now
+// every one has, and a drop that polls (L0 stall) inside such a section would
+// spin through every 10 ms of a simulated clock jump. Off by default: schedule
+// points inside drops are ordinary scheduling steps.
+var useNoYield = os.Getenv("VERIF_USE_NOYIELD") != ""
+
 func (e *Engine) noYieldFn(delta int) {
+	if !useNoYield {
+		return
+	}
 	gid := goid()
 	e.mu.Lock()
 	e.noYield[gid] += delta
